@@ -380,8 +380,8 @@ def line_disp(c):
         fg = g.reshape(u.shape[2:])
         return (f"xf.disp_nonrigid {d} {proto.grid(g)} {proto.grid(fg)} {proto.grid(og)} {1 if og == g else 0} "
                 f"{1 if og == fg else 0} 12 zeros {field_tokens(u[k].detach())}")
-    size = " ".join(str(int(v)) for v in og.size())
-    return f"xf.disp_linear {d} {member_tokens(t, i)} {1 if og.align_corners() else 0} {size}"
+    same = 1 if og.same_domain_as(g) else 0
+    return f"xf.disp_linear {d} {proto.grid(g)} {member_tokens(t, i)} {proto.grid(og)} {same}"
 
 
 # ============================================================================ stream: ImageTransformer
@@ -457,8 +457,14 @@ def line_warp(c):
     img = _warp_image(c, eff_s)
     n = batch_size(t)
     pad = f"const:{proto.fr(c['cval'])}" if c["pad"] == "const" else c["pad"]
+    # the lattice flag of ImageTransformer.__init__, recomputed here from the grids (not read from the object)
+    ac = g.align_corners()
+    x = eff_t.coords(align_corners=ac)
+    x = eff_t.transform_points(x, axes=Axes.from_align_corners(ac), to_grid=g)
+    lattice = Grid(shape=eff_t.shape, align_corners=ac).coords()
+    is_lat = 1 if torch.allclose(x, lattice, atol=1e-5) else 0
     return (f"xf.warp {g.ndim} {proto.grid(g)} {member_tokens(t, c['index'] % n)} {proto.grid(eff_t)} {proto.grid(eff_s)} "
-            f"{1 if eff_t == g else 0} {1 if eff_s == g else 0} 12 {pad} {tvec(img[0])}")
+            f"{1 if eff_t == g else 0} {1 if eff_s == g else 0} {is_lat} 12 {pad} {tvec(img[0])}")
 
 
 def cmp_warp(c, r, out):
